@@ -279,7 +279,12 @@ func (r ValueRange) Includes(v Value) Value {
 	if v.IsNull() {
 		return True
 	}
-	if !v.Type().HasDynamicTypes() && len(v.Type().TestConformance(r.TypeConstraint())) != 0 {
+	if len(v.Type().TestConformance(r.TypeConstraint())) != 0 {
+		if v.Type().HasDynamicTypes() {
+			// A value with a dynamically-typed part might still turn out
+			// to conform once that part is known, so we can't decide yet.
+			return unknownResult
+		}
 		// If the value doesn't conform to the type constraint then it's
 		// definitely not in the range.
 		return False
